@@ -648,6 +648,36 @@ def _r3_cycles(ctx):
                 elif appended and popped:
                     unheld = (fi, [src(c) for c in back_calls
                                    if id(c) not in covered])
+    if guard is None and unheld is None:
+        # the guard may have been moved into a private helper of a function
+        # on the cycle (`self._check_not_recursive(url)`): a membership test
+        # on a field of self together with a raise of a configuration error.
+        # The rule reads the guard's placement off the cycle function itself;
+        # a delegated guard is outside its vocabulary -- no verdict, not a
+        # violation
+        for q in cyc:
+            fi = m.functions[q]
+            for call in walk_shallow(fi.node):
+                if not isinstance(call, ast.Call):
+                    continue
+                for c in P.resolve_call(fi, call):
+                    if c.kind != "repo" or c.fn.qualname in cyc \
+                            or not c.fn.name.startswith("_"):
+                        continue
+                    tests = [x for x in ast.walk(c.fn.node)
+                             if isinstance(x, ast.Compare) and len(x.ops) == 1
+                             and isinstance(x.ops[0], (ast.In, ast.NotIn))
+                             and isinstance(x.comparators[0], ast.Attribute)]
+                    raises = [x for x in ast.walk(c.fn.node)
+                              if isinstance(x, ast.Raise)]
+                    if tests and raises:
+                        run.soft_error(
+                            "C07.R3: the include guard seems to be delegated "
+                            "to the helper %s (called from %s); the rule "
+                            "decides the guard's placement in the cycle's own "
+                            "functions only -- no verdict"
+                            % (c.fn.qualname, fi.qualname))
+                        return
     run.check(guard is not None, "C07.R3",
               " -> ".join(c.split(".")[-1] for c in cyc), "include recursion",
               "cycle is guarded in %s: membership test on %s raising a "
